@@ -459,7 +459,7 @@ def _build(r):
                 "bytearray": lambda: bytearray(b"ab"), "memoryview": lambda: memoryview(b"ab"), "frozenset": lambda: frozenset([1]),
                 "generator": lambda: (x for x in ("g1", "g2")), "iterator": lambda: iter(["i1", "i2"]), "map": lambda: map(str, [1, 2]),
                 "dictkeys": lambda: {"k1": 1}.keys(), "dictitems": lambda: {"k1": 1}.items(), "enumerate": lambda: enumerate(["e"]),
-                "badrepr": BadRepr,
+                "badrepr": BadRepr, "tagfunction": lambda: ht.tags.hr, "listclass": lambda: ht.TagList, "boundmethod": lambda: ht.div().append, "strclass": lambda: str,
                 "function": lambda: (lambda: "x"), "exception": lambda: ValueError("v"), "module": lambda: __import__("json")}[t]()
     raise ValueError(k)
 
